@@ -181,7 +181,7 @@ def st_case(draw: st.DrawFn, tier: str, sut: str) -> dict:
     interesting = sorted(set(pc["sep"]) | set(pc["header"]) | set(boundaries))
     cuts = [c for c in draw(drivers.st_cuts(len(stream), interesting)) if 0 < c < sent_len]
 
-    path = draw(st.sampled_from(["copy", "buffered"])) if entry.buffered else "copy"
+    path = draw(st.sampled_from(["copy", "buffered", "buffered"])) if entry.buffered else "copy"
     shape = {
         "on_connection": draw(
             st.one_of(
